@@ -60,6 +60,8 @@ def one_trace(tid, n, game, mode, family):
         work = game.copy()
         info = normalize_game(work)
         out = np.array(work.get_values(), dtype=np.float64)
+        if not np.array_equal(np.array(game.get_values(), dtype=np.float64), orig):
+            t["den_err"] = 2 ** 30                       # normalising a copy changed the original: reported through the inverse clause
         if not np.all(np.isfinite(out)) or np.max(np.abs(out)) > 1000:
             # far outside [0,1]: keep the trace on the grid so that the range clause reports it
             out = np.clip(np.nan_to_num(out, nan=999.0, posinf=999.0, neginf=-999.0), -999.0, 999.0)
@@ -75,7 +77,7 @@ def one_trace(tid, n, game, mode, family):
         denormalize_game(den_game, info)
         back = np.array(den_game.get_values(), dtype=np.float64)
         err = float(np.max(np.abs(back - orig)))
-        t["den_err"] = min(2 ** 30, math.ceil(err / (2.0 ** -52 * D.pow2_at_least(maxabs))))
+        t["den_err"] = max(t["den_err"], min(2 ** 30, math.ceil(err / (2.0 ** -52 * D.pow2_at_least(maxabs)))))
         if isinstance(game, GraphCooperativeGame):       # the tabulated form of the same game must normalise alike
             twin = table_of(n, orig)
             normalize_game(twin)
